@@ -134,6 +134,12 @@ class Native:
         self.work = work
         self.pkgs = pkgs
         self.funcs = build.harness_funcs(pkgs)
+        seen = {}
+        for p, fs in self.funcs.items():
+            for n, _ in fs:
+                if n in seen:
+                    raise RuntimeError(f'harness name {n} defined in both {seen[n]} and {p}')
+                seen[n] = p
         self.ov = build.harness_overlay(pkgs, native=True)
         for p in pkgs:
             src = gen_replay_test(p, self.funcs[p], go_package_name(p))
